@@ -218,6 +218,9 @@ func (ms *MStream) Break() {
 func (ms *MStream) finish(err error) {
 	n := ms.net
 	n.mu.Lock()
+	if ms.Finished && ms.st != nil {
+		n.W.Tap.note(ms, "handler-returned-late")
+	}
 	if !ms.Finished {
 		ms.Finished = true
 		st, _ := status.FromError(err)
@@ -431,7 +434,16 @@ func (s *mServerStream) SendMsg(m any) error {
 	defer n.mu.Unlock()
 	defer n.bump()
 	if err != nil {
-		return status.Errorf(codes.Internal, "grpc: error while marshaling: %v", err)
+		// grpc-go: a message that cannot be encoded ends the RPC with that status
+		e := status.Errorf(codes.Internal, "grpc: error while marshaling: %v", err)
+		if !s.Finished && s.sErr == nil {
+			s.sErr = e
+			s.Finished = true
+			s.st, _ = status.FromError(e)
+			s.scancel()
+			n.W.Tap.note(s.MStream, "server-abort")
+		}
+		return e
 	}
 	if s.sErr != nil {
 		return s.sErr
